@@ -62,7 +62,7 @@ ENV = {
     "dbc": dict(ecus=True, ecu_comments=True, frame_comments=True, signal_comments=True, multiline=True, senders="many", receivers=True,
                 motorola=True, signed=True, floats=True, mux=["none", "none", "simple", "extended"], values=True, neg_values=True,
                 attributes=["net", "ecu", "frame", "signal"], attr_types=["INT", "HEX", "FLOAT", "STRING", "ENUM"], unit_max=32, nonascii=True,
-                limits=True, ext=True, unique_signals=False, static_with_mux=True, min_len=1, mux_named=True),
+                limits=True, ext=True, unique_signals=False, static_with_mux=True, min_len=1, mux_named=True, groups=True),
     "dbf": dict(ecus=True, ecu_comments=True, frame_comments=True, signal_comments=True, multiline=False, senders="one", receivers=True,
                 motorola=True, signed=True, floats=True, mux=["none", "none", "simple"], values=True, neg_values=False,
                 attributes=["net", "ecu", "frame", "signal"], attr_types=["INT", "HEX"], unit_max=16, nonascii=True,
@@ -71,7 +71,7 @@ ENV = {
     "sym": dict(ecus=False, ecu_comments=False, frame_comments=True, signal_comments=True, multiline=False, senders="none", receivers=False,
                 motorola=True, signed=True, floats=True, mux=["none", "none", "simple"], values=True, neg_values=False,
                 attributes=[], attr_types=[], unit_max=16, nonascii=True,
-                limits=True, ext=True, unique_signals=False, static_with_mux=False, min_len=1, mux_named=False),
+                limits=True, ext=True, unique_signals=False, static_with_mux=False, min_len=1, mux_named=False, sym_switches=True),
     "kcd": dict(ecus=True, ecu_comments=False, frame_comments=True, signal_comments=True, multiline=True, senders="many", receivers=True,
                 motorola=True, signed=True, floats=True, mux=["none", "none", "simple"], values=True, neg_values=False,
                 attributes=[], attr_types=[], unit_max=32, nonascii=True,
@@ -83,7 +83,8 @@ ENV = {
     "arxml": dict(ecus=True, ecu_comments=True, frame_comments=True, signal_comments=True, multiline=False, senders="many", receivers=True,
                   motorola=True, signed=True, floats=True, mux=["none", "none", "simple"], values=True, neg_values=False,
                   attributes=[], attr_types=[], unit_max=32, nonascii=True,
-                  limits=True, ext=True, unique_signals=True, static_with_mux=True, min_len=1, mux_named=False, mux_plain=True),
+                  limits=True, ext=True, unique_signals=True, static_with_mux=True, min_len=1, mux_named=False, mux_plain=True,
+                  ecus_need_role=True),
 }
 
 NAME_POOL = ["Eng", "Engine", "EngineSpeed", "Speed", "Trq", "Torque", "Body", "BodyCtl", "Gw", "Gateway", "Abs", "Esp",
@@ -258,7 +259,7 @@ def gen_desc(rng, fmt, size="small"):
             s = dict(name=pick_name(rng, used_s, prefix), byte_order=bo, start=st, width=w, type=typ, factor=factor, offset=offset,
                      unit="", receivers=[], mux=muxinfo, values={}, comment=None, attributes=attr_values("signal"))
             if isf:
-                s["min"], s["max"] = D(-1000), D(1000)
+                s["min"], s["max"] = offset - 1000 * factor, offset + 1000 * factor     # raw -1000 .. 1000, exact in every format
                 if env.get("limits_times_factor"):
                     s["min"], s["max"] = -1000 * factor, 1000 * factor
             elif env.get("limits_times_factor"):
@@ -284,6 +285,20 @@ def gen_desc(rng, fmt, size="small"):
                 s["values"] = {k: (l if env["nonascii"] else l.encode("ascii", "ignore").decode()) for k, l in zip(keys, labs)}
             if env["signal_comments"] and rng.random() < 0.4:
                 s["comment"] = comment_text(rng, env, env["multiline"])
+            if env.get("sym_switches"):
+                # PEAK's /ln (long name), /p (decimal places), /d (default value, physical, on the raw grid inside the limits)
+                x = {}
+                if rng.random() < 0.3:
+                    x["long_name"] = rng.choice(["Engine speed", "Torque", "State of charge", "Door_open"])
+                if rng.random() < 0.3:
+                    x["decimals"] = rng.randrange(0, 5)
+                if rng.random() < 0.3 and not isf:
+                    lo, hi = raw_range(s)
+                    raw = rng.choice([lo, hi, rng.randrange(lo, hi + 1)])
+                    v = offset + raw * factor
+                    if s["min"] <= v <= s["max"]:
+                        x["start_value"] = v
+                s["sym"] = x
             return s
         for lay in static:
             sigs.append(mk_signal(lay, "S"))
@@ -295,8 +310,24 @@ def gen_desc(rng, fmt, size="small"):
                 sigs.append(mk_signal(lay, "G%d_" % v, mi))
         if mux == "extended" and muxer is not None:
             fr["extended_mux"] = True
+            # a signal may be active for several selector ranges (SG_MUL_VAL_ lists them)
+            nsel = 1 << muxer["width"]
+            for s in sigs:
+                if s["mux"] and s["mux"]["role"] == "muxed" and rng.random() < 0.4:
+                    lo = rng.randrange(nsel)
+                    hi = min(nsel - 1, lo + rng.randrange(0, 3))
+                    if not (lo <= s["mux"]["selector"] <= hi):
+                        s["mux"]["ranges"] = sorted(s["mux"]["ranges"] + [(lo, hi)])
+                        s["mux"]["selector"] = s["mux"]["ranges"][0][0]    # the SG_ line names the first range's start (m<k>)
         fr["signals"] = sigs
+        if env.get("groups") and len(sigs) >= 2 and rng.random() < 0.35:
+            members = rng.sample([s["name"] for s in sigs], rng.randrange(1, min(4, len(sigs)) + 1))
+            fr["groups"] = [dict(name="Grp_" + fname[:12], repetitions=rng.randrange(1, 4), signals=members)]
         desc["frames"].append(fr)
+    if env.get("ecus_need_role"):
+        # ARXML: an ECU is known to a cluster through the frames it sends or receives (ports on its connector)
+        used = {s for fr in desc["frames"] for s in fr["senders"]} | {r for fr in desc["frames"] for sg in fr["signals"] for r in sg["receivers"]}
+        desc["ecus"] = [e for e in desc["ecus"] if e["name"] in used]
     return desc
 
 
